@@ -72,7 +72,7 @@ func SV_C07_checktx_isolated() {
 	where := sv.Choice("inject.at", 5)
 	ta1 := svBlock(a, 3, nv, []action.SignedTx{tx}, func(pos int) {
 		if pos == where {
-			svCheck(a, chk)
+			svCheckEnvGas(a, chk)
 			sv.Cover(true, "checktx-injected")
 		}
 	})
@@ -139,7 +139,7 @@ func SV_C07_olvm_checktx() {
 	where := sv.Choice("inject.at", 6)
 	ta1 := svBlock(a, 3, nv, blk, func(pos int) {
 		if pos == where {
-			svCheck(a, chk)
+			svCheckEnvGas(a, chk)
 			sv.Cover(true, "checktx-injected")
 		}
 	})
